@@ -8,7 +8,6 @@ import (
 
 	"github.com/robfig/soy/ast"
 	"github.com/robfig/soy/data"
-	"github.com/robfig/soy/parse"
 	"github.com/robfig/soy/parsepasses"
 	"github.com/robfig/soy/soyhtml"
 	"github.com/robfig/soy/template"
@@ -56,7 +55,7 @@ func parseFilesWire(fs []srcFile) (string, []*ast.SoyFileNode, error) {
 	parts := []string{"files"}
 	var nodes []*ast.SoyFileNode
 	for _, f := range fs {
-		n, err := parse.SoyFile(f.name, f.content)
+		n, err := soyFileSafe(f.name, f.content)
 		if err != nil {
 			return "", nil, err
 		}
@@ -70,7 +69,7 @@ func parseFilesWire(fs []srcFile) (string, []*ast.SoyFileNode, error) {
 func compileCheck(fs []srcFile) (*template.Registry, error) {
 	var registry = template.Registry{}
 	for _, f := range fs {
-		tree, err := parse.SoyFile(f.name, f.content)
+		tree, err := soyFileSafe(f.name, f.content)
 		if err != nil {
 			return nil, err
 		}
@@ -169,7 +168,14 @@ func allIndex(s, sub string) []int {
 }
 
 var injectors = []injector{
-	{"undeclared-name", func(r *RNG, fs []srcFile) ([]srcFile, bool) { return bodySite(r, fs, "{$zz}") }},
+	{"undeclared-name", func(r *RNG, fs []srcFile) ([]srcFile, bool) {
+		// in every syntactic position that takes an expression
+		sn := []string{"{$zz}", "{switch 1}{case 1, $zz}x{/switch}", "{switch $zz}{case 1}x{/switch}", "{if $zz}x{/if}", "{if false}x{elseif $zz}y{/if}",
+			"{foreach $zq in $zz}{$zq}{/foreach}", "{for $zq in range($zz)}{$zq}{/for}", "{print 1|truncate:$zz}", "{let $zq: $zz/}{$zq}", "{css $zz, a}",
+			"{msg desc=\"d\"}{$zz}{/msg}", "{msg desc=\"d\"}{plural $zz}{case 1}a{default}b{/plural}{/msg}", "{1 ?: $zz}", "{true ? 1 : $zz}", "{length([$zz])}", "{['k': $zz]}",
+			"{$ij.a[$zz]}", "{$ij?.a?[$zz]}", "{not $zz}", "{-$zz}", "{log}{$zz}{/log}", "{let $zq}{$zz}{/let}{$zq}"}
+		return bodySite(r, fs, sn[r.Intn(len(sn))])
+	}},
 	{"use-after-block", func(r *RNG, fs []srcFile) ([]srcFile, bool) {
 		return bodySite(r, fs, []string{"{if true}{let $zq: 1/}{$zq}{/if}{$zq}", "{let $zc}{let $zq: 1/}{$zq}{/let}{$zc}{$zq}", "{switch 1}{case 1}{let $zq: 1/}{$zq}{/switch}{$zq}"}[r.Intn(3)])
 	}},
